@@ -1,4 +1,5 @@
 pub mod adv;
+pub mod laxconv;
 pub mod ops;
 
 pub mod onvec {
@@ -14,7 +15,45 @@ pub mod onadv {
 }
 pub mod props;
 
-/// further oracle self-tests that need the library (AdvKind conformance etc.); extended over time
+/// Oracle self-tests that need the library: AdvKind must itself satisfy the array contract under
+/// every alternative of every choice point (otherwise C20 would raise alarms on correct code).
+/// Returns (ok, executions, cases).
+pub fn adv_conformance(quick: bool) -> (bool, u64, u64, Vec<String>) {
+    use rayon::prelude::*;
+    let c = onadv::C07::new(quick);
+    let mut ok = true;
+    let mut execs = 0u64;
+    let mut cases = 0u64;
+    let mut msgs = vec![];
+    for (fam, count) in c.families.clone() {
+        let r: Vec<(u64, u64, Option<String>)> = (0..count)
+            .into_par_iter()
+            .map(|i| {
+                let mut loc = ohmc_core::explore::Local::scratch();
+                c.run(fam, i, &mut loc);
+                (loc.transitions, 1, loc.violations.first().map(|v| format!("{} {}", v.kind, v.detail)))
+            })
+            .collect();
+        for (t, n, v) in r {
+            execs += t;
+            cases += n;
+            if let Some(m) = v {
+                ok = false;
+                if msgs.len() < 5 {
+                    msgs.push(m);
+                }
+            }
+        }
+    }
+    (ok, execs, cases, msgs)
+}
+
 pub fn selftest_extra() -> bool {
-    true
+    ohmc_core::explore::install_panic_hook();
+    let (ok, execs, cases, msgs) = adv_conformance(true);
+    println!("selftest adv-conformance: cases={} executions(all tapes)={} ok={}", cases, execs, ok);
+    for m in msgs {
+        println!("  {}", m);
+    }
+    ok
 }
